@@ -119,6 +119,7 @@ def run(ctx):
                       'the candidate is modified between its limits check and the push (%s)' % ', '.join(stale), found=', '.join(stale))
     # a solver rewritten without a singular push has nothing to gate; then the instance count is 0 and that is fine
 
+    _limits_storage(ctx, prog)
     run_dependencies(ctx)
 
     # R08.4 wrappers
@@ -228,3 +229,47 @@ def _same_value(b, cand, elem, operand, bi):
     if cand == elem:
         return True
     return False
+
+
+def _limits_storage(ctx, prog):
+    """R08.5: the limits a solver filters by are the limits it was constructed with, and the limits it reports are those"""
+    ctx.rule('R08.5', 'the constructor with limits stores Some(its limits argument), the one without stores None, and constraints() returns that field')
+    ctors = [b for p, b in prog.bodies.items() if b.kind != 'Closure' and b.local_ty(0).endswith('kinematics_impl::OPWKinematics') and
+             (b.raw.get('impl_self') or '').endswith('OPWKinematics') and not b.raw.get('impl_trait')]
+    n = 0
+    for b in ctors:
+        tys = [b.local_ty(i) for i in range(1, b.arg_count + 1)]
+        aggs = [(i, j, st) for i, j, st in b.stmts() if st['rv']['k'] == 'agg' and isinstance(st['rv'].get('kind'), dict) and
+                (st['rv']['kind'].get('adt') or '').endswith('kinematics_impl::OPWKinematics')]
+        if not aggs:
+            continue                      # delegates to another constructor
+        ctx.fn(b)
+        for i, j, st in aggs:
+            flds = st['rv']['kind'].get('fields') or []
+            t = b.rv_term(st['rv'], (i, j))
+            vals = dict(zip(flds, t[2:]))
+            n += 1
+            name = b.path.split('::')[-1]
+            cpos = [k + 1 for k, ty in enumerate(tys) if ty.endswith('constraints::Constraints')]
+            ppos = [k + 1 for k, ty in enumerate(tys) if ty.endswith('Parameters')]
+            c = strip(vals.get('constraints'))
+            if cpos:
+                ok = isinstance(c, tuple) and c[0] == 'agg' and 'Some' in str(c[1]) and util.is_param(c[2], cpos[0])
+                want = 'Some(the limits argument)'
+            else:
+                ok = isinstance(c, tuple) and c[0] == 'agg' and 'None' in str(c[1])
+                want = 'None'
+            ctx.check(ok, 'R08.5', name + '/limits-stored', b.where(i, j), b.path, 'the constructor must store %s as the limits of the solver' % want,
+                      found=show(c, maxdepth=3), expected=want)
+            if ppos:
+                pv = strip(vals.get('parameters'))
+                ctx.check(util.is_param(pv, ppos[0]), 'R08.5', name + '/parameters-stored', b.where(i, j), b.path,
+                          'the constructor must store the parameters it is given', found=show(pv, maxdepth=3))
+    ctx.floor('R08.5 constructors', n, 2)
+    acc = prog.trait_impl_method('kinematics_impl::OPWKinematics', 'Kinematics', 'constraints')
+    ctx.require(acc is not None, 'OPWKinematics::constraints')
+    ctx.fn(acc)
+    rv = [strip(x[0]) for x in acc.return_values()]
+    ok = len(rv) == 1 and isinstance(rv[0], tuple) and rv[0][0] == 'fld' and rv[0][2] == 'constraints' and util.is_param(rv[0][1], 1)
+    ctx.check(ok, 'R08.5', 'constraints()', acc.where(0), acc.path, 'constraints() must return the limits the solver filters by (self.constraints)',
+              found=[show(x, maxdepth=3) for x in rv])
